@@ -6,6 +6,7 @@ package verifsim
 import (
 	"fmt"
 	"hash/fnv"
+	"strings"
 	"testing"
 	"time"
 )
@@ -274,19 +275,54 @@ func RunCase(t *testing.T, spec CaseSpec) *CaseResult {
 		add(checkC02(r))
 		res.Nontrivial = delivered > 0
 	case "C03":
-		add(checkC03Main(r))
-		if len(res.Violations) == 0 {
-			add(checkC03Resume(t, res, r))
+		if len(sc.Attempts) > 1 {
+			// replica crash + restart from the last label the handler made durable
+			for _, v := range checkC04(r) {
+				v.Property, v.Rule = "C03", "crash-restart-exactly-once:"+v.Rule
+				res.Violations = append(res.Violations, v)
+			}
+			for i, a := range r.Results {
+				if a.Master != nil && len(a.Master.Dumps) > 0 && a.Master.Dumps[0].Served {
+					d := a.Master.Dumps[0]
+					for _, v := range checkPrefix("C03", sc.Hist, Pos{d.File, int64(d.Offset)}, a.Calls, i) {
+						v.Rule = "crash-restart-exactly-once:content"
+						res.Violations = append(res.Violations, v)
+					}
+				}
+			}
+			res.Stats.probe("crash-restart-cases")
+		} else {
+			add(checkC03Main(r))
+			if len(res.Violations) == 0 {
+				add(checkC03Resume(t, res, r))
+			}
 		}
 		res.Nontrivial = delivered > 1
 	case "C04":
 		add(checkC04(r))
+		for i, a := range r.Results {
+			if i > 0 && a.Master != nil && len(a.Master.Dumps) > 0 {
+				res.Stats.probe("resume-coordinate-judged-after:" + strings.Join(r.Results[i-1].Causes, "+"))
+			}
+		}
 		res.Nontrivial = delivered > 0 && faultInFlight
 	case "C05":
 		add(checkC05(r))
 		res.Nontrivial = faultInFlight || anyConnPhase(r)
 	case "C06":
 		add(checkC06(r))
+		for _, a := range r.Results {
+			if len(a.Causes) == 1 && !a.Hang && !a.ErrorBlocked {
+				k := "judged:" + a.Causes[0]
+				if a.StreamErr == nil {
+					k += ":stream-nil"
+					if len(a.ErrorResults) > 0 && a.ErrorResults[0] != nil {
+						k += ":error-reported"
+					}
+				}
+				res.Stats.probe(k)
+			}
+		}
 		res.Nontrivial = faultInFlight || anyConnPhase(r)
 	case "C07":
 		add(checkC07(r))
@@ -312,6 +348,24 @@ func RunCase(t *testing.T, spec CaseSpec) *CaseResult {
 		res.Nontrivial = delivered > 0
 	case "C17":
 		add(checkC17(r))
+		for _, a := range r.Results {
+			if hasCause(a, "invalid-event") {
+				n := len(a.Plan.Stream.Invalid)
+				switch {
+				case n == 0:
+					res.Stats.probe("malformed:empty")
+				case n < 19:
+					res.Stats.probe("malformed:shorter-than-header")
+				default:
+					l := int(uint32(a.Plan.Stream.Invalid[9]) | uint32(a.Plan.Stream.Invalid[10])<<8 | uint32(a.Plan.Stream.Invalid[11])<<16 | uint32(a.Plan.Stream.Invalid[12])<<24)
+					if l < n {
+						res.Stats.probe("malformed:length-field-smaller-than-buffer")
+					} else {
+						res.Stats.probe("malformed:length-field-larger-than-buffer")
+					}
+				}
+			}
+		}
 		res.Nontrivial = faultInFlight
 	}
 	res.Hash = hashStrings(spec.Prop, fmt.Sprint(describeScenario(sc)), scheduleSignature(r))
